@@ -143,6 +143,8 @@ func vTokenMatrix() []*vTokenSpec {
 	add("groups-object", func(t *vTokenSpec) { t.claims["groups"] = map[string]interface{}{"a": "b"} })
 	add("groups-mixed", func(t *vTokenSpec) { t.claims["groups"] = []interface{}{"g", 5, true, []interface{}{"n"}} })
 	add("groups-null", func(t *vTokenSpec) { t.claims["groups"] = nil })
+	add("groups-empty-list", func(t *vTokenSpec) { t.claims["groups"] = []interface{}{} })
+	add("preferred-username-empty", func(t *vTokenSpec) { t.claims["preferred_username"] = "" })
 	add("pref-bool", func(t *vTokenSpec) { t.claims["preferred_username"] = true })
 	// combinations: an invalid clause together with otherwise attractive claims
 	add("wrong-key+admin-groups", func(t *vTokenSpec) { t.key = vKeyRSA2; t.sigOK = false; t.claims["groups"] = []interface{}{"admins"} })
@@ -160,6 +162,7 @@ type vOCfg struct {
 	skipIssuer    bool
 	discovery     bool
 	profile       string // "", "ok", "fail"
+	userIDClaim   string // the deprecated user-id-claim option when it differs from the e-mail claim
 }
 
 func (c vOCfg) sx() vsx {
@@ -174,6 +177,9 @@ func vOidcEnv(t *testing.T, c vOCfg, extra func(*options.Options)) *vEnv {
 		p.OIDCConfig.ExtraAudiences = c.extraAud
 		p.OIDCConfig.EmailClaim = c.emailClaim
 		p.OIDCConfig.UserIDClaim = c.emailClaim
+		if c.userIDClaim != "" {
+			p.OIDCConfig.UserIDClaim = c.userIDClaim
+		}
 		p.OIDCConfig.InsecureAllowUnverifiedEmail = c.allowUnverif
 		p.OIDCConfig.InsecureSkipIssuerVerification = c.skipIssuer
 		p.OIDCConfig.InsecureSkipNonce = true
@@ -225,6 +231,8 @@ func driveC04(t *testing.T, out *vEmitter) {
 		{name: "discovery", audClaims: []string{"aud"}, emailClaim: "email", discovery: true, profile: "ok"},
 		{name: "profile", audClaims: []string{"aud"}, emailClaim: "email", profile: "ok"},
 		{name: "skip-issuer", audClaims: []string{"aud"}, emailClaim: "email", skipIssuer: true},
+		// both the e-mail claim option and the deprecated user-id-claim option set, to different claims
+		{name: "email-claim-and-user-id-claim", audClaims: []string{"aud"}, emailClaim: "preferred_username", userIDClaim: "sub"},
 	}
 	for _, c := range cfgs {
 		e := vOidcEnv(t, c, nil)
@@ -311,13 +319,16 @@ func driveC04(t *testing.T, out *vEmitter) {
 					}
 				}
 				if s != nil && c.profile == "" {
-					if em, ok := ts.claims[c.emailClaim].(string); ok && s.Email != em {
+					// (an empty e-mail claim has its own fallback to the subject on the bearer path)
+					if em, ok := ts.claims[c.emailClaim].(string); ok && em != "" && s.Email != em {
 						out.Violation("oidc/identity-not-from-token", "the session's e-mail is not the token's configured claim",
 							map[string]interface{}{"config": c.name, "token": ts.label, "path": path, "got": s.Email, "claim": em})
 					}
 				}
-				if s != nil && c.profile == "" {
-					// the groups are those of THIS token's claim (none when it has none), on every path
+				tokenHasGroups := ts.claims["groups"] != nil // (a nil entry means the claim is absent from the token)
+				if s != nil && (c.profile == "" || tokenHasGroups) {
+					// the groups are those of THIS token's claim (none when it has none; with a profile endpoint the
+					// fallback applies only to claims the token lacks), on every path
 					var want []string
 					known := true
 					switch g := ts.claims["groups"].(type) {
